@@ -22,30 +22,22 @@ RUN_ENV = {"UBSAN_OPTIONS": "print_stacktrace=0:halt_on_error=1"}
 SETOF_MODULE = ("W DEFINITIONS AUTOMATIC TAGS ::= BEGIN T ::= SEQUENCE { a INTEGER, c SET OF INTEGER (0..300), "
                 "s UTF8String } END")
 SETOF_BER = "300e800105a10602012c020103820161"      # a=5, c={300,3}, s="a"
-OS_MODULE = "W2 DEFINITIONS AUTOMATIC TAGS ::= BEGIN T ::= SEQUENCE { a OCTET STRING, b OCTET STRING } END"
 
 PROPOSED_FINDINGS = [
  {"id": "F21", "property": "C14", "status": "known",
-  "what": "SET_OF_encode_xer (canonical) leaks its scratch buffers when an allocation fails while the elements are "
-          "being collected for sorting: `encs` / the per-element buffers are not released on the `cleanup` path taken "
-          "after a failed REALLOC/MALLOC, so asn_encode returns -1 and 1..3 blocks stay allocated for good",
+  "what": "SET_OF_encode_xer (CANONICAL-XER) leaks its scratch buffers whenever it fails: `if(tmper.encoded == -1) return tmper;` "
+          "and `cb_failed: ASN__ENCODE_FAILED;` leave the function without passing through `cleanup`, so the `encs` array and "
+          "the per-element buffers collected so far stay allocated for good (failure = an allocation failure in "
+          "SET_OF_encode_xer_callback, or an element that cannot be encoded, e.g. an OBJECT IDENTIFIER with an overflowing arc)",
   "witness": {"module": SETOF_MODULE, "type": "T", "op": f"hist 4 dec:ber:{SETOF_BER};!enc:cxer", "expect": r"enc fail .* live=[1-9]"},
-  "matcher": "step `!enc:cxer` (allocation failure inside CANONICAL-XER encode) of a type containing SET OF; ledger live > 0 after the final free"},
+  "matcher": "an `enc:cxer` step that returns failure on a type containing SET OF; ledger live > 0 after the final free",
+  "lean_counterexample": "Asn1c.Props.C14.f21_witness_trace_leaks"},
  {"id": "F7", "property": "C14", "status": "known",
   "what": "SET_OF_encode_der (constr_SET_OF.c:481) and SET_OF_encode_uper (:1080) dereference the NULL returned by "
-          "SET_OF__encode_sorted when an allocation inside it fails (same site as F7/C07): crash instead of a clean -1",
+          "SET_OF__encode_sorted when it fails - an allocation inside it fails, or an element cannot be encoded (same site as F7/C07): crash instead of a clean -1",
   "witness": {"module": SETOF_MODULE, "type": "T", "op": f"hist 3 dec:ber:{SETOF_BER};!enc:der", "expect": r"CRASH .*constr_SET_OF\.c:\d+:\d+: runtime error: member access within null pointer"},
-  "matcher": "step `!enc:der` or `!enc:uper` (allocation failure inside the encoder) of a type containing SET OF; crash located in constr_SET_OF.c, `struct _el_buffer` NULL"},
- {"id": "F140", "property": "C14", "status": "known",
-  "what": "dynamic_encoder_cb (asn_application.c) calls memcpy(dst, NULL, 0) when an encoder emits an empty OCTET STRING "
-          "whose buf is NULL (a structure left behind by a decode that was cut by an allocation failure, or built by hand "
-          "with buf=NULL,size=0): undefined behaviour (nonnull argument), trapped by UBSan; asn_encode_to_new_buffer only",
-  "witness": {"module": OS_MODULE, "type": "T", "op": "hist 3 !dec:ber:300a80030102038103616263;encb:der",
-              "expect": r"CRASH .*asn_application\.c:\d+:\d+: runtime error: null pointer passed as argument 2"},
-  "matcher": "asn_encode_to_new_buffer (`encb`) of a structure whose last decode did not return RC_OK; crash summary "
-             "`asn_application.c: null pointer passed as argument 2` (or `constr_TYPE.c: null pointer passed as argument 1` = "
-             "fwrite(NULL,1,0,..) in _print2fp under asn_fprint, step `printf`); the generator uses a null callback for "
-             "`enc` / `print` on such structures"},
+  "matcher": "a history with an `enc:der` / `enc:uper` step on a type containing SET OF (allocation failure inside the encoder, or an element "
+             "that cannot be encoded, e.g. violating its PER constraint after a BER/OER decode); crash located in constr_SET_OF.c, `struct _el_buffer` NULL"},
  {"id": "F141", "property": "C14", "status": "known",
   "what": "CHOICE_decode_ber never returns on `00 xx` (xx != 00) where the end-of-contents octets of an indefinite-length "
           "tagged CHOICE are expected: the `while(ctx->left < 0)` loop of phase 3 neither advances nor returns when the "
@@ -282,7 +274,7 @@ def is_setof_type(t, env):
     return genmod.contains_kind(t, env, ("SET OF",))
 
 def gen_modules(ctx):
-    n = 3 if ctx.quick else 14
+    n = 5 if ctx.quick else 16
     mods = []
     for i in range(n):
         td = [None, "AUTOMATIC", "IMPLICIT", "EXPLICIT"][i % 4]
@@ -328,16 +320,20 @@ def run(ctx):
         "K leg: the ownership tree is read from the C structure by harness/ops_gen_c14.c (descriptor walk, private copy of OCTET_STRING.c's struct _stack layout)"]
     ctx.lean()
     replay_witnesses(ctx)
+    # sanitizer findings owned by C04 / C07 (decoding arbitrary bytes, encoder contract): a crash whose report matches
+    # the `expect` pattern of such an entry is reported under that entry, not as a C14 violation
+    foreign = [f for f in core.load_findings() if f.get("property") in ("C04", "C07") and f.get("status") == "known"
+               and isinstance(f.get("witness"), dict) and re.search(r"\.c:\d+", f["witness"].get("expect", ""))]
     rng = ctx.rng
     quick = ctx.quick
-    fails = collections.Counter(); samples = {}
+    fails = collections.Counter(); samples = {}; known_hits = collections.Counter()
     skipped = collections.Counter(); dist = collections.Counter()
     kl = Klegs()
     total = 0; built = 0; nfail_runs = 0; ninjected = 0
     ev_samples = []
     lc = {"name": "LC", "text": LC_TEXT, "types": None}
     mods = [lc] + gen_modules(ctx)
-    full_budget = 3 if quick else 10            # (type, value, syntax) combinations enumerated exhaustively
+    full_budget = 4 if quick else 10            # (type, value, syntax) combinations enumerated exhaustively
     maxlen_full = 3 if quick else 4
     kcap = 40 if quick else 400
     for m in mods:
@@ -413,15 +409,43 @@ def run(ctx):
         # ---- phase 1: fault-free, with trees
         l1 = [f"@{h['tn']} hist -1t " + ";".join(h["steps"]) for h in hist]
         o1, _ = run_parallel(ctx, exe, l1)
+        def known_of(line, o, why, h):
+            """the known finding (id) whose narrow matcher this failing line satisfies, or None"""
+            if why == "crash":
+                if crash_sig(o).startswith("constr_SET_OF.c:member access within null pointer") and h.get("so") \
+                   and re.search(r"enc:(der|uper)", line): return "F7"
+                for f in foreign:          # memory-safety findings of C04/C07 met while decoding garbage / printing what it left
+                    try:
+                        if re.search(f["witness"]["expect"], o): return f["id"]
+                    except re.error: pass
+                return None
+            if why.startswith("hang:"):
+                if re.match(r"hang:(ber_fetch_tag<)?CHOICE_decode_ber<", why) and ":ber:" in line: return "F141"
+                return None
+            if why == "leak" and h.get("so"):
+                st = parse_hist(o); specs = line.split(" ", 3)[3].split(";")
+                if st and any(x["name"] == "enc" and x["rc"] == "fail" and sp.lstrip("!") == "enc:cxer" for x, sp in zip(st, specs)):
+                    return "F21"
+            return None
         def record(line, o, why, h):
+            """returns True when the failure is a known finding (the line is then kept away from the K leg as well)"""
+            fid = known_of(line, o, why, h)
+            if fid:
+                known_hits[fid] += 1
+                return True
             kind = why if why != "crash" else "crash:" + crash_sig(o)
             fails[kind] += 1
             samples.setdefault(kind, {"module": txt, "type": h["tn"], "op": line, "c_output": (o or "")[:1500], "failure": kind})
+            return False
         fvr = []
         for h, line, o in zip(hist, l1, o1):
             total += 1
             why = judge(o)
-            if why: record(line, o, why, h); h["base"] = None; continue
+            if why:
+                kn = record(line, o, why, h); h["base"] = None
+                st = parse_hist(o)
+                if st and not kn: kl.from_hist(line, st)        # the model is asked as well: which leg sees it is reported
+                continue
             st = parse_hist(o)
             h["base"] = st
             kl.from_hist(line, st)
@@ -451,7 +475,11 @@ def run(ctx):
         for h, line, o in zip(m2, l2, o2):
             total += 1; nfail_runs += 1
             why = judge(o)
-            if why: record(line, o, why, h); continue
+            if why:
+                kn = record(line, o, why, h)
+                st = parse_hist(o)
+                if st and st[0]["T"] is not None and not kn: kl.from_hist(line, st)
+                continue
             st = parse_hist(o)
             if st[-1]["failed"]: ninjected += 1
             armed = next((s for s, raw in zip(st, line.split(" ", 3)[3].split(";")) if raw.startswith("!")), None)
@@ -489,7 +517,7 @@ def run(ctx):
     ctx.cov["disagreements_checked"] = len(kl.q)
     ctx.cov["samples"] += ev_samples
     for l, exp, got, src in dis[:5]:
-        ctx.log("K DISAGREE", l[:200], "| C:", exp[:200], "| model:", got[:200])
+        ctx.log("K DISAGREE", l[:200], "| expected from C's run:", exp[:200], "| model:", got[:200])
     if dis:
         ctx.broken.append({"kind": "correspondence", "name": "lifecycle", "first": {"lean_op": dis[0][0][:2000], "c_expected": dis[0][1][:2000],
                            "model": dis[0][2][:2000], "c_line": dis[0][3][:2000]}, "count": len(dis)})
@@ -504,16 +532,14 @@ def run(ctx):
                        "(all words up to the tier's length for a few (type,value,syntax), fixed + random longer words and prefix/rest at "
                        "evenly spaced cuts for the others), each run fault-free and with the k-th allocation of each allocating step failing; "
                        "non-trivial = the run allocated, and for failure runs the failure was actually injected; distinct by (type, syntax, word, outcomes)")
+    for fid, n in sorted(known_hits.items()):
+        fd = next((x for x in ctx.findings + foreign if x["id"] == fid), None)
+        if fd: ctx.known(fd)
+        ctx.log(f"known finding {fid}: {n} runs matched")
+    ctx.cov["predicate"]["lifecycle"]["known_finding_runs"] = dict(known_hits)
     nviol = 0
     for kind, n in fails.most_common(20):
         s = samples[kind]
-        f = None
-        if kind.startswith("crash:constr_SET_OF.c:member access within null pointer"): f = "F7"
-        elif kind.startswith("crash:asn_application.c:null pointer passed as argument 2"): f = "F140"
-        elif kind.startswith("hang:") and re.match(r"hang:(ber_fetch_tag<)?CHOICE_decode_ber<", kind) and ":ber:" in s["op"]: f = "F141"
-        if f:
-            fd = next((x for x in ctx.findings if x["id"] == f), None)
-            if fd: ctx.known(fd); ctx.log(f"known finding {f}: {n} runs"); continue
         ctx.log("FAIL", n, kind, "|", s["type"], s["op"][:160], "=>", s["c_output"][-200:])
         if nviol < 5:
             nviol += 1
